@@ -404,6 +404,11 @@ def verify_gate_field(F, R, adt, field, bit, fname):
                 rv = n.d['rv']
                 t = S.operand(n.id, rv['ops'][rv['fields'].index(field)])
                 bad = None
+                if not any(y[0] == 'call' and y[1] in begins for y in deep_subterms(S, t)):
+                    R.check(False, 'H4', '%s:gate-field:%s' % (adt, field), site(sg, n), '`%s` = contains(negotiated, %s bit %d)' % (field, fname, bit),
+                            'gate field `%s` is not computed from the negotiated feature set (the result of begin_init) at all: %s - the gated operation '
+                            'talks to the device whether or not %s was negotiated' % (field, fmt(t)[:80], fname))
+                    continue
                 for b_ in range(0, 64):
                     def leaf(x, b_=b_):
                         for y in deep_subterms(S, x):
